@@ -581,4 +581,26 @@ def region15 (inp : Input) : String :=
   else if F_multiMatch inp then "Out"
   else "WF"
 
+
+/-! ## C01 leg: does the output compile -/
+
+def allOk : List (String × String) :=
+  [("exit", "0"), ("compile", "ok"), ("header", "ok"), ("gofmt", "ok"), ("package", "ok")]
+
+def obs01 (inp : Input) : List (String × String) :=
+  [("exit", "0"), ("compile", if modelCompiles inp then "ok" else "error"), ("header", "ok"), ("gofmt", "ok"), ("package", "ok")]
+
+/-- WF: a well-typed pair inside the grammar whose output type-checks; F_map…: input classes on which
+    the unchanged generator emits Go that does not compile (the C05 / C15 findings of that kind) -/
+def region01 (inp : Input) : String :=
+  if !grammarOk inp || !namesOk inp then "Out"
+  else if modelCompiles inp then "WF"
+  else if F_setOnlyRead inp then "F_mapSetOnlyRead"
+  else if F_namedScalarSub inp then "F_mapNamedScalarSub"
+  else if (genStmts inp).any (fun c => c.strat == .conv && isPtrTy c.wr.ty) ||
+          (genArgs inp).any (fun a => a.strat == .conv && isPtrTy a.p.ty) then "F_mapPtrConv"
+  else if (genStmts inp).any (fun c => c.strat == .conv && c.wr.ty.mentionsSrc) ||
+          (genArgs inp).any (fun a => a.strat == .conv && a.p.ty.mentionsSrc) then "F_mapConvSrcNamed"
+  else "Out"
+
 end ShootVerif.Mapper
